@@ -327,6 +327,7 @@ func checkExposureAgainstHypotheticalPods(w *World, ca *connlist.ConnlistAnalyze
 	type realW struct {
 		peer, pod, ns string
 		labels        []KV
+		ports         []CPort
 	}
 	var reals []realW
 	seen := map[string]bool{}
@@ -336,7 +337,7 @@ func checkExposureAgainstHypotheticalPods(w *World, ca *connlist.ConnlistAnalyze
 			p := wlPeerName(o.Wl)
 			if !seen[p] {
 				seen[p] = true
-				reals = append(reals, realW{p, o.Wl.NS + "/" + o.Wl.Name + "-1", o.Wl.NS, o.Wl.Labels})
+				reals = append(reals, realW{p, o.Wl.NS + "/" + o.Wl.Name + "-1", o.Wl.NS, o.Wl.Labels, o.Wl.Ports})
 			}
 		case "pod":
 			name, kind := o.Pod.OwnerName, o.Pod.OwnerKind
@@ -346,7 +347,7 @@ func checkExposureAgainstHypotheticalPods(w *World, ca *connlist.ConnlistAnalyze
 			p := o.Pod.NS + "/" + name + "[" + kind + "]"
 			if !seen[p] {
 				seen[p] = true
-				reals = append(reals, realW{p, o.Pod.NS + "/" + o.Pod.Name, o.Pod.NS, o.Pod.Labels})
+				reals = append(reals, realW{p, o.Pod.NS + "/" + o.Pod.Name, o.Pod.NS, o.Pod.Labels, o.Pod.Ports})
 			}
 		}
 	}
@@ -386,6 +387,36 @@ func checkExposureAgainstHypotheticalPods(w *World, ca *connlist.ConnlistAnalyze
 	exposed := map[string]connlist.ExposedPeer{}
 	for _, ep := range ca.ExposedPeers() {
 		exposed[ep.ExposedPeer().String()] = ep
+	}
+	// an ingress entry names ports of the workload itself: a port name it prints is declared by the workload for that
+	// protocol (a rule's named port that the workload does not declare opens nothing on it)
+	for _, rw := range reals {
+		ep, ok := exposed[rw.peer]
+		if !ok {
+			continue
+		}
+		for _, it := range ep.IngressExposure() {
+			cur := ""
+			for _, f := range strings.Split(fmt.Sprint(it.PotentialConnectivity()), ",") {
+				if i := strings.Index(f, " "); i > 0 {
+					cur, f = f[:i], f[i+1:]
+				}
+				if f == "" || (f[0] >= '0' && f[0] <= '9') || cur == "All" || cur == "No" {
+					continue
+				}
+				declared := false
+				for _, cp := range rw.ports {
+					pr := cp.Proto
+					if pr == "" {
+						pr = "TCP"
+					}
+					declared = declared || (cp.Name == f && pr == cur)
+				}
+				if !declared {
+					rep("C06", "ingress-exposure-undeclared-named-port", fmt.Sprintf("the ingress exposure of %s prints %s %s, a port name the workload does not declare for that protocol: no connection stands behind it", rw.peer, cur, f))
+				}
+			}
+		}
 	}
 	for hi, h := range hs {
 		hNs := withName(h.nsLabels, h.ns)
